@@ -226,15 +226,24 @@ def run(ctx):
                 depth=30, timeout=3000)
     sim = [c for c in r.printed if isinstance(c, dict)]
     cases += sim
+    # larger components (5 commits: a merge that is neither a build nor the head becomes possible) for the variant whose
+    # builds are bumps of the saved number
+    r = ctx.tlc('ghist/GHistComp.tla', _cfg(5, 4, 2, 2, True, invs=False), workers=8, simulate=(6000 if ctx.quick else 60000) // 8,
+                depth=30, timeout=3000)
+    sim5 = [c for c in r.printed if isinstance(c, dict)]
+    for c in sim5:
+        c['prefer_saved'] = True
+    cases += sim5
+    ctx.extra['history_pairs_simulated_5_component_commits'] = len(sim5)
     for i, c in enumerate(cases):
         c['supply'] = i % 2
         c['vfile'] = (i // 2) % 2         # how the component's builds get their major.minor: tag text / VERSION file
         # third way: no tags, a build is a bump of the saved number (needs: one build per commit, roots are builds,
-        # every merge is a build - a merge that keeps a parent's number would carry the number of a build that does
-        # not contain all its ancestors, which the property does not speak about)
+        # a head that is a plain merge is excluded: it would be an unbuilt head that carries the number of a build which
+        # does not contain all its ancestors, and what the report must say then is not fixed by the property)
         roots_built = all(c['ctagged'][k] for k in range(c['ck']) if not c['cparents'][k])
-        no_plain_merge = all(c['ctagged'][k] or len(c['cparents'][k]) <= 1 for k in range(c['ck']))
-        if (i // 4) % 2 and roots_built and no_plain_merge and all(x <= 1 for x in c['ctagged']) and not any(c['pin2']):
+        no_plain_merge = all(c['ctagged'][k] or len(c['cparents'][k]) <= 1 or k + 1 != c['ck'] for k in range(c['ck']))
+        if ((i // 4) % 2 or c.get('prefer_saved')) and roots_built and no_plain_merge and all(x <= 1 for x in c['ctagged']) and not any(c['pin2']):
             c['vfile'] = 2
     res = pmap(_job, cases, chunk=100)
     for c, prob in zip(cases, res):
